@@ -1,5 +1,387 @@
 package main
 
+import (
+	"bytes"
+	"crypto/sha256"
+	"encoding/hex"
+	"fmt"
+	"io"
+	"math/rand"
+	"sort"
+	"time"
+
+	"golang.org/x/crypto/openpgp"
+	"golang.org/x/crypto/openpgp/packet"
+	"pault.ag/go/debian/deb"
+)
+
+func init() {
+	props["C14"] = &prop{gen: genC14, exec: execAr}
+	props["C16"] = &prop{gen: genC16, exec: execAr}
+}
+
+// ---- keys (real OpenPGP; generated once per process) ------------------------
+
+var testKeys = map[string]*openpgp.Entity{}
+
+func key(name string) *openpgp.Entity {
+	if e, ok := testKeys[name]; ok {
+		return e
+	}
+	cfg := &packet.Config{RSABits: 1024, Time: func() time.Time { return time.Unix(1700000000, 0) }}
+	e, err := openpgp.NewEntity(name, "verif", name+"@example.org", cfg)
+	if err != nil {
+		die("keygen: %v", err)
+	}
+	testKeys[name] = e
+	return e
+}
+
+func keyName(e *openpgp.Entity) string {
+	if e == nil {
+		return "none"
+	}
+	for n, k := range testKeys {
+		if k.PrimaryKey.KeyId == e.PrimaryKey.KeyId {
+			return n
+		}
+	}
+	return "unknown"
+}
+
+func keyring(names []interface{}) openpgp.EntityList {
+	el := openpgp.EntityList{}
+	for _, n := range names {
+		el = append(el, key(n.(string)))
+	}
+	return el
+}
+
+func detachSign(k *openpgp.Entity, data []byte) []byte {
+	var buf bytes.Buffer
+	cfg := &packet.Config{Time: func() time.Time { return time.Unix(1700000100, 0) }}
+	if err := openpgp.DetachSign(&buf, k, bytes.NewReader(data), cfg); err != nil {
+		die("sign: %v", err)
+	}
+	return buf.Bytes()
+}
+
+// ---- building a package from an abstract shape -------------------------------
+
+func buildDeb(vec J) (builtDeb, error) {
+	specs := L(vec["members"])
+	members := make([]arMember, len(specs))
+	for i, sj := range specs {
+		s := M(sj)
+		name := s["name"].(string)
+		switch s["role"].(string) {
+		case "binary":
+			members[i] = arMember{name, []byte(S(s["text"]))}
+		case "control":
+			files := []tarFile{}
+			for _, fj := range L(s["files"]) {
+				f := M(fj)
+				switch f["kind"].(string) {
+				case "control":
+					files = append(files, tarFile{Name: f["name"].(string), Content: renderControl(L(s["fields"]))})
+				case "dir":
+					files = append(files, tarFile{Name: f["name"].(string), Dir: true})
+				default:
+					files = append(files, tarFile{Name: f["name"].(string), Content: []byte(S(f["content"]))})
+				}
+			}
+			data, err := compress(s["comp"].(string), buildTar(files))
+			if err != nil {
+				return builtDeb{}, err
+			}
+			members[i] = arMember{name, data}
+		case "data":
+			files := []tarFile{}
+			for _, fj := range L(s["files"]) {
+				f := M(fj)
+				files = append(files, tarFile{Name: f["name"].(string), Content: []byte(S(f["content"]))})
+			}
+			data, err := compress(s["comp"].(string), buildTar(files))
+			if err != nil {
+				return builtDeb{}, err
+			}
+			members[i] = arMember{name, data}
+		case "extra":
+			members[i] = arMember{name, []byte(S(s["content"]))}
+		case "sig":
+			// filled in below, once the signed members exist
+		default:
+			die("deb: unknown member role %v", s["role"])
+		}
+	}
+	for i, sj := range specs {
+		s := M(sj)
+		if s["role"].(string) != "sig" {
+			continue
+		}
+		var signed []byte
+		for _, ix := range L(s["over"]) {
+			signed = append(signed, members[I(ix)-1].Data...)
+		}
+		members[i] = arMember{s["name"].(string), detachSign(key(s["key"].(string)), signed)}
+	}
+	b := layout(members)
+	// optional tampering after signing
+	if t, ok := vec["tamper"]; ok && t != nil {
+		tm := M(t)
+		if tm["kind"].(string) == "flip" {
+			i := I(tm["member"]) - 1
+			n := len(members[i].Data)
+			if n > 0 {
+				var off int
+				if o, ok := tm["off"]; ok {
+					off = I(o) % n
+				} else {
+					off = n * I(tm["num"]) / I(tm["den"])
+					if off >= n {
+						off = n - 1
+					}
+				}
+				b.Bytes[b.DataOff[i]+off] ^= byte(I(tm["mask"]))
+			}
+		}
+	}
+	return b, nil
+}
+
+// ---- observing a load ----------------------------------------------------------
+
+func loadOnce(b []byte, check J) (obs J, id string) {
+	obs = J{"ok": false}
+	defer func() {
+		if r := recover(); r != nil {
+			obs = J{"ok": false, "panic": true, "msg": B(fmt.Sprint(r))}
+			id = "panic"
+		}
+	}()
+	d, err := deb.Load(bytes.NewReader(b), "/tmp/x.deb")
+	if err != nil {
+		return J{"ok": false, "panic": false}, "error"
+	}
+	defer d.Close()
+	c := d.Control
+	dep, _ := c.Depends.MarshalControl()
+	ver, _ := c.Version.MarshalControl()
+	arch, _ := c.Architecture.MarshalControl()
+	names := []string{}
+	for n := range d.ArContent {
+		names = append(names, n)
+	}
+	sort.Strings(names)
+	arNames := []interface{}{}
+	for _, n := range names {
+		arNames = append(arNames, n)
+	}
+	files := []interface{}{}
+	for i := 0; i < 10000; i++ {
+		h, err := d.Data.Next()
+		if err == io.EOF {
+			break
+		}
+		if err != nil {
+			files = append(files, J{"name": "<error>", "content": B("")})
+			break
+		}
+		content, _ := io.ReadAll(d.Data)
+		files = append(files, J{"name": h.Name, "content": BB(content)})
+	}
+	obs = J{"ok": true, "panic": false, "path": d.Path,
+		"control": J{"Package": B(c.Package), "Source": B(c.Source), "Version": B(ver), "Architecture": B(arch),
+			"Maintainer": B(c.Maintainer), "InstalledSize": c.InstalledSize, "MultiArch": B(c.MultiArch),
+			"Depends": B(dep), "Section": B(c.Section), "Priority": B(c.Priority), "Homepage": B(c.Homepage),
+			"Description": B(c.Description), "SourceName": B(c.SourceName())},
+		"para":        paraToJ(c.Paragraph),
+		"control_ext": d.ControlExt, "data_ext": d.DataExt, "ar_names": arNames, "tar": files}
+	if check != nil {
+		signer, err := d.CheckDebsig(keyring(L(check["keyring"])), check["role"].(string))
+		obs["sig"] = J{"ok": err == nil, "signer": keyName(signer)}
+	} else {
+		obs["sig"] = J{"ok": false, "signer": "unchecked"}
+	}
+	js := fmt.Sprint(obs)
+	sum := sha256.Sum256([]byte(js))
+	return obs, hex.EncodeToString(sum[:8])
+}
+
 func execDeb(vec J, out *Writer) {
-	die("deb: unknown vector kind %v", vec["k"])
+	switch vec["k"].(string) {
+	case "deb":
+		b, err := buildDeb(vec)
+		if err != nil {
+			// a compressor that is not installed is not an observation of go-debian
+			out.Put(J{"ev": "deb", "in": vec, "built": false, "why": B(err.Error()), "reps": []interface{}{}, "first": J{"ok": false}})
+			return
+		}
+		var check J
+		if c, ok := vec["check"]; ok && c != nil {
+			check = M(c)
+		}
+		reps := I(vec["reps"])
+		ids := []interface{}{}
+		var first J
+		for i := 0; i < reps; i++ {
+			obs, id := loadOnce(b.Bytes, check)
+			if i == 0 {
+				first = obs
+			}
+			sigOK, signer := false, "unchecked"
+			if s, ok := obs["sig"]; ok {
+				sj := s.(J)
+				sigOK, signer = sj["ok"].(bool), sj["signer"].(string)
+			}
+			pkg := ""
+			if obs["ok"].(bool) {
+				pkg = S(obs["control"].(J)["Package"])
+			}
+			ids = append(ids, J{"id": id, "ok": obs["ok"], "sig_ok": sigOK, "signer": signer, "pkg": B(pkg)})
+		}
+		out.Put(J{"ev": "deb", "in": vec, "built": true, "len": len(b.Bytes), "reps": ids, "first": first})
+	case "debraw":
+		// damaged .deb, described by a recipe (base package + one operation) so that vectors stay small;
+		// loaded several times under a watchdog
+		base, err := buildDeb(J{"members": stdMembers(vec["ctl"].(string), vec["data"].(string), "rawpkg")})
+		if err != nil {
+			die("debraw base: %v", err)
+		}
+		b := append([]byte{}, base.Bytes...)
+		switch vec["op"].(string) {
+		case "flip":
+			b[I(vec["off"])%len(b)] ^= byte(I(vec["mask"]))
+		case "trunc":
+			b = b[:I(vec["off"])%(len(b)+1)]
+		case "col":
+			// overwrite a header column of member i with text
+			hdr := base.DataOff[I(vec["member"])-1] - 60
+			cols := map[string][2]int{"name": {0, 16}, "mtime": {16, 28}, "uid": {28, 34}, "gid": {34, 40}, "mode": {40, 48}, "size": {48, 58}, "magic": {58, 60}}
+			c := cols[vec["col"].(string)]
+			text := fmt.Sprintf("%-*s", c[1]-c[0], S(vec["text"]))
+			copy(b[hdr+c[0]:hdr+c[1]], text[:c[1]-c[0]])
+		case "none":
+		default:
+			die("debraw: unknown op %v", vec["op"])
+		}
+		ids := []interface{}{}
+		hang := false
+		for i := 0; i < 3 && !hang; i++ {
+			done := make(chan string, 1)
+			go func() { _, id := loadOnce(b, nil); done <- id }()
+			select {
+			case id := <-done:
+				ids = append(ids, id)
+			case <-time.After(20 * time.Second):
+				hang = true
+			}
+		}
+		out.Put(J{"ev": "debraw", "in": vec, "len": len(b), "ids": ids, "hang": hang})
+	default:
+		die("deb: unknown vector kind %v", vec["k"])
+	}
+}
+
+// ---- generators -----------------------------------------------------------------
+
+func stdFields(pkg string) []interface{} {
+	return []interface{}{
+		[]interface{}{B("Package"), B(pkg)}, []interface{}{B("Version"), B("1:2.0-3")},
+		[]interface{}{B("Architecture"), B("amd64")}, []interface{}{B("Maintainer"), B("A B <a@b.org>")},
+		[]interface{}{B("Installed-Size"), B("42")}, []interface{}{B("Depends"), B("libc6 (>= 2.4), foo | bar")},
+		[]interface{}{B("Description"), B("short\n long line\n .\n more")}, []interface{}{B("X-Unknown"), B("kept")}}
+}
+
+func stdMembers(ctlComp, dataComp string, pkg string) []interface{} {
+	ext := func(c string) string {
+		if c == "" {
+			return ""
+		}
+		return "." + c
+	}
+	return []interface{}{
+		J{"role": "binary", "name": "debian-binary", "text": B("2.0\n"), "files": []interface{}{}},
+		J{"role": "control", "name": "control.tar" + ext(ctlComp), "comp": ctlComp, "extname": "tar" + ext(ctlComp), "fields": stdFields(pkg),
+			"files": []interface{}{J{"name": "./", "kind": "dir"}, J{"name": "./md5sums", "kind": "file", "content": B("abc  usr/bin/x\n")}, J{"name": "./control", "kind": "control"}}},
+		J{"role": "data", "name": "data.tar" + ext(dataComp), "comp": dataComp, "extname": "tar" + ext(dataComp),
+			"files": []interface{}{J{"name": "./usr/bin/x", "kind": "file", "content": B("#!/bin/sh\necho hi\n")}, J{"name": "./usr/share/doc/x/copyright", "kind": "file", "content": B("free\n")}}},
+	}
+}
+
+func genC14(seed int64, tier string, out *Writer) {
+	// byte-level damage of valid packages for the determinism / totality part is in C15;
+	// here: seeded variations of data payloads larger than the TLC shapes
+	r := rand.New(rand.NewSource(seed))
+	n := 10
+	if tier == "thorough" {
+		n = 150
+	}
+	comps := []string{"", "gz", "xz", "bz2", "lzma", "zst"}
+	for i := 0; i < n; i++ {
+		ms := stdMembers(comps[r.Intn(6)], comps[r.Intn(6)], fmt.Sprintf("pkg%d", i))
+		files := []interface{}{}
+		for k := r.Intn(6); k > 0; k-- {
+			content := make([]byte, r.Intn(3000))
+			r.Read(content)
+			files = append(files, J{"name": fmt.Sprintf("./f%d", k), "kind": "file", "content": BB(content)})
+		}
+		M(ms[2])["files"] = files
+		out.Put(J{"k": "deb", "members": ms, "reps": 3})
+	}
+}
+
+// genDebRaw: structured damage of real packages whose members are stored or gzip-compressed
+func genDebRaw(r *rand.Rand, tier string, out *Writer) {
+	stride, tstride := 97, 211
+	if tier == "thorough" {
+		stride, tstride = 5, 13
+	}
+	texts := []string{"-1", "-60", "-61", "9999999999", "", "12x", "+5", "0", "1", "100000"}
+	for _, comps := range [][2]string{{"", ""}, {"gz", "gz"}, {"gz", ""}} {
+		base, err := buildDeb(J{"members": stdMembers(comps[0], comps[1], "rawpkg")})
+		if err != nil {
+			die("genDebRaw: %v", err)
+		}
+		n := len(base.Bytes)
+		out.Put(J{"k": "debraw", "ctl": comps[0], "data": comps[1], "op": "none"})
+		for off := r.Intn(stride); off < n; off += stride {
+			out.Put(J{"k": "debraw", "ctl": comps[0], "data": comps[1], "op": "flip", "off": off, "mask": 1 << uint(r.Intn(8))})
+		}
+		for off := r.Intn(tstride); off < n; off += tstride {
+			out.Put(J{"k": "debraw", "ctl": comps[0], "data": comps[1], "op": "trunc", "off": off})
+		}
+		for m := 1; m <= 3; m++ {
+			for _, col := range []string{"name", "mtime", "uid", "gid", "mode", "size", "magic"} {
+				for _, t := range texts {
+					out.Put(J{"k": "debraw", "ctl": comps[0], "data": comps[1], "op": "col", "member": m, "col": col, "text": B(t)})
+				}
+			}
+		}
+	}
+}
+
+func genC16(seed int64, tier string, out *Writer) {
+	// every byte (stride-sampled in quick) of the three signed members and of the signature flipped
+	r := rand.New(rand.NewSource(seed))
+	stride := 37
+	if tier == "thorough" {
+		stride = 1
+	}
+	for _, comp := range []string{"gz", ""} {
+		ms := stdMembers(comp, comp, "signedpkg")
+		ms = append(ms, J{"role": "sig", "name": "_gpgorigin", "key": "k1", "over": []interface{}{1, 2, 3}, "files": []interface{}{}})
+		b, err := buildDeb(J{"members": ms})
+		if err != nil {
+			die("genC16: %v", err)
+		}
+		for mi := range ms {
+			n := len(b.Members[mi].Data)
+			start := r.Intn(stride)
+			for off := start; off < n; off += stride {
+				out.Put(J{"k": "deb", "members": ms, "reps": 2, "check": J{"role": "origin", "keyring": []interface{}{"k1"}},
+					"tamper": J{"kind": "flip", "member": mi + 1, "off": off, "num": 0, "den": 1, "mask": 1 << uint(r.Intn(8))}, "signed": []interface{}{1, 2, 3}})
+			}
+		}
+	}
 }
